@@ -404,10 +404,72 @@ def check_container(case) -> Result:
               lambda internal_mods, nterm_mods: pt.apply_static_mods('PEPTIDE', internal_mods, nterm_mods=nterm_mods))
         probe('apply_variable_mods', {'internal_mods': {'P': [list(vals)]}, 'cterm_mods': {'E': [list(vals)]}},
               lambda internal_mods, cterm_mods: pt.apply_variable_mods('PEPTIDE', internal_mods, 1, cterm_mods=cterm_mods))
+        # rules given as Mod objects, two rules hitting the same residue, annotation results (edited afterwards by probe())
+        mobj = [Mod(v, 1) for v in vals]
+        probe('apply_static_mods(Mod rules)', {'internal_mods': {'P': list(mobj), 'P(?=E)': [Mod('second', 1)], '[PT]': [Mod('third', 1)]},
+                                               'nterm_mods': {'': [Mod('nt', 1)]}},
+              lambda internal_mods, nterm_mods: pt.apply_static_mods('PEPTIDE', internal_mods, nterm_mods=nterm_mods, return_type='annotation'))
+        probe('apply_static_mods(Mod rules, append)', {'internal_mods': {'P': list(mobj), 'E': list(mobj)}},
+              lambda internal_mods: pt.apply_static_mods('PE[x]PTIDE[y]', internal_mods, mode='append', return_type='annotation'))
+        res = probe('apply_variable_mods(Mod rules)', {'internal_mods': {'P': [list(mobj)], '[ST]': [[Mod('q', 1)]]}, 'nterm_mods': {'': [list(mobj)]}},
+                    lambda internal_mods, nterm_mods: pt.apply_variable_mods('PEPTIDES', internal_mods, 2, nterm_mods=nterm_mods,
+                                                                             return_type='annotation'), alias=False)
+        if res and len(res) >= 2:
+            snaps = [snap(x) for x in res]
+            scribble(res[0])
+            if [snap(x) for x in res[1:]] != snaps[1:]:
+                r.fail('the forms returned by apply_variable_mods are independent of each other',
+                       'C08/result-shares-state/apply_variable_mods/sibling-forms')
+            exp_forms = pt.apply_variable_mods('PEPTIDES', {'P': [list(mobj)], '[ST]': [[Mod('q', 1)]]}, 2, nterm_mods={'': [list(mobj)]})
+            if [x[0] for x in snaps] != exp_forms:
+                r.fail('the result does not depend on what was called before', 'C08/history-dependent-result/apply_variable_mods(Mod rules)')
+        # twice the same call with the same (Mod) rule objects gives the same peptide
+        rules = {'P': list(mobj), 'P(?=E)': [Mod('second', 1)]}
+        first = pt.apply_static_mods('PEPTIDE', rules)
+        second = pt.apply_static_mods('PEPTIDE', rules)
+        if first != second:
+            r.fail('the result does not depend on what was called before', 'C08/history-dependent-result/apply_static_mods(Mod rules)',
+                   first=first, second=second)
         probe('mod_mass(list)', {'mod': [v for v in vals if not isinstance(v, str) or v[0] in '+-0123456789']},
               lambda mod: pt.mod_mass(mod))
         probe('mass(isotope_mods)', {'isotope_mods': ['13C', '15N']}, lambda isotope_mods: pt.mass('PEPTIDE', isotope_mods=isotope_mods))
         probe('comp(isotope_mods)', {'isotope_mods': ['13C']}, lambda isotope_mods: pt.comp('PEPTIDE', isotope_mods=isotope_mods))
+    elif kind == 'pure-string':
+        # queries on immutable arguments that return mutable objects: editing one result must not change the next one
+        calls = {
+            'mod_comp': lambda: pt.mod_comp(case['text']),
+            'mod_comp(Mod)': lambda: pt.mod_comp(Mod(case['text'], 2)),
+            'parse_chem_formula': lambda: pt.parse_chem_formula('C6H12O6[13C2]'),
+            'glycan_comp': lambda: pt.glycan_comp('HexNAc2Hex3'),
+            'parse_glycan_formula': lambda: pt.parse_glycan_formula('HexNAc2Hex3'),
+            'get_mods': lambda: pt.get_mods(case['seq']),
+            'pop_mods': lambda: pt.pop_mods(case['seq']),
+            'comp': lambda: pt.comp(case['seq'], estimate_delta=True),
+            'comp_mass': lambda: pt.comp_mass(case['seq']),
+            'parse': lambda: pt.parse(case['seq']),
+            'count_residues': lambda: pt.count_residues(case['seq']),
+            'parse_static_mods': lambda: pt.parse_static_mods(pt.parse(case['seq']).static_mods),
+            'parse_charge_adducts': lambda: pt.parse_charge_adducts('+2Na+,+H+'),
+            'fragment': lambda: pt.fragment(case['seq'].split('/')[0].replace('{Hex}', ''), 'b', 1) if '?' not in case['seq'] else None,
+            'digest(annotation)': lambda: list(pt.digest(case['seq'], 'trypsin/P', return_type='annotation')),
+            'isotopic_distribution': lambda: pt.isotopic_distribution({'C': 6, 'H': 12, 'O': 6}, max_isotopes=4),
+        }
+        for name, fn in calls.items():
+            try:
+                r1 = fn()
+            except ValueError:
+                continue
+            if r1 is None:
+                continue
+            n1 = norm(r1)
+            try:
+                scribble(r1)
+            except Exception:  # noqa
+                pass
+            r2 = fn()
+            if norm(r2) != n1:
+                r.fail('the same query gives the same result whatever was done with an earlier result',
+                       f'C08/result-shared-between-calls/{name}', first=str(n1)[:200], second=str(norm(r2))[:200])
     return r
 
 
@@ -423,6 +485,10 @@ def container_strategy():
         st.fixed_dictionaries({'kind': st.just('score'), 'order': st.permutations(list(range(12))),
                                'deltas': st.lists(st.sampled_from([0.0, 0.1, -0.2, 3.0]), min_size=12, max_size=12)}),
         st.fixed_dictionaries({'kind': st.just('mod-lists'), 'mods': mods}),
+        st.fixed_dictionaries({'kind': st.just('pure-string'),
+                               'text': st.sampled_from(['Acetyl', 'Phospho', 'Formula:C2H3', 'Glycan:Hex2', 'U:1', 'MOD:00046', 'Oxidation|INFO:x']),
+                               'seq': st.sampled_from(['PEP[Acetyl]TIDEK/2', '<[Carbamidomethyl]@C><13C>PEC[Phospho]TKIDE', '[Acetyl]-PEK[+1.5]TIDE-[Amidated]',
+                                                       '{Hex}PEKTIDE/2[+2Na+]', 'PE(KT)[Phospho]IDEK', '[Oxidation]?PEKTIDE'])}),
     )
 
 
